@@ -268,6 +268,79 @@ def run_cases(cases, ctx):
     return traces
 
 
+def concurrent_metadata(shapes, seed):
+    """two clients ask for the metadata of a freshly registered class at the same time (thread server, thread switches at every
+    line of the member scan): each must be told the complete member list; afterwards the member is requested as usual"""
+    import os
+    import random
+    from Pyro5 import protocol, serializers, server
+    sfile = os.path.abspath(server.__file__)
+    traces = []
+
+    def tfilter(code):
+        return os.path.abspath(code.co_filename) == sfile and code.co_name == "_get_exposed_members"
+
+    def main():
+        sc = S.CUR
+        lab = L.Lab(servertype="thread", poolsize=6)
+        ser = serializers.serializers["serpent"]
+        for k, (mi, m) in enumerate(shapes):
+            sc.set_budget(200000)
+            log = []
+            obj, name = build_target(m, mi, log)
+            oid = "cm%d" % k
+            lab.daemon.register(obj, oid)
+            metas = {}
+
+            def asker(tag):
+                def body():
+                    c = lab.raw()
+                    c.send(L.connect_msg("Pyro.Daemon"))
+                    sc.yield_point(lambda: len(c.sock.inbuf) >= 40)
+                    c.drain()
+                    del c.replies[:]
+                    c.send(L.invoke_msg("Pyro.Daemon", "get_metadata", [oid], ser="serpent"))
+                    sc.yield_point(lambda: len(c.sock.inbuf) >= 40)
+                    sc.yield_point()
+                    c.drain()
+                    r = c.replies[-1] if c.replies else None
+                    metas[tag] = ser.loads(r["data"]) if r is not None and not (r["flags"] & protocol.FLAGS_EXCEPTION) else None
+                    c.close()
+                return body
+            sc.spawn(sc.fresh_name("askA"), asker("A"))
+            sc.spawn(sc.fresh_name("askB"), asker("B"))
+            sc.yield_point(lambda: len(metas) == 2)
+            sc.quiesce()
+            # the member itself, asked for in the ordinary way
+            c = lab.raw()
+            c.send(L.connect_msg("Pyro.Daemon"))
+            sc.quiesce()
+            c.drain()
+            del c.replies[:]
+            del log[:]
+            before = snapshot(obj)
+            c.send(L.invoke_msg(oid, name, [1], ser="serpent"))
+            sc.quiesce()
+            c.drain()
+            reply = "none"
+            if c.replies:
+                reply = "error" if c.replies[-1]["flags"] & protocol.FLAGS_EXCEPTION else "result"
+            c.close()
+            sc.quiesce()
+            for tag in ("A", "B"):
+                meta = metas.get(tag) or {"methods": [], "attrs": [], "oneway": ["<no metadata>"]}
+                traces.append({"m": m, "rk": "call", "nv": "exact", "ran": any(x != "bystander" for x in log), "bystanders": 0,
+                               "changed": snapshot(obj) != before, "reply": reply, "meta_method": name in meta["methods"], "meta_attr": name in meta["attrs"],
+                               "meta_oneway": name in meta["oneway"],
+                               "meta_extra": bool((set(meta["methods"]) | set(meta["attrs"]) | set(meta["oneway"])) - {name, "bystander"}) or
+                               "bystander" not in meta["methods"], "ser": "serpent", "name": name, "req": repr(name), "concurrent": True})
+        lab.close()
+    memnet.run(main, chooser=S.RandomChooser(random.Random(seed + 2)), trace_filter=tfilter, max_steps=50000000)
+    if len(traces) < 2 * len(shapes):
+        raise util.MachineryError("concurrent metadata pass incomplete (%d of %d)" % (len(traces), 2 * len(shapes)))
+    return traces
+
+
 def run(ctx):
     memnet.install()
     ctx.rule = ("cases = constructible member shapes from Gen_Expose (540) x request kinds (6) x name variants (7), one raw INVOKE each "
@@ -291,6 +364,10 @@ def run(ctx):
                     continue
                 cases.append({"m": s["m"], "mi": mi, "rk": rk, "nv": nv})
     traces = run_cases(cases, ctx)
+    marked = [(mi, sh["m"]) for mi, sh in enumerate(shapes) if sh["m"]["mark"] in ("member", "class_definer") and sh["m"]["name"] in ("public", "dunder_custom")
+              and sh["m"]["kind"] in ("imethod", "smethod", "cmethod", "prop_ro", "prop_rw", "prop_wo")]
+    ctraces = concurrent_metadata(marked[::ctx.pick(4, 1)], ctx.seed)
+    traces += ctraces
     for c in cases:
         ctx.count(json.dumps([c["mi"], c["rk"], c["nv"]]))
     for i in (0, len(traces) // 2, len(traces) - 1):
